@@ -66,6 +66,46 @@ var defineFunRe = regexp.MustCompile(`^\(define-fun(?:-rec)? ([A-Za-z0-9_]+) \((
 func loadPreludeSigs(text string) {
 	for _, l := range strings.Split(text, "\n") {
 		l = strings.TrimSpace(l)
+		if strings.HasPrefix(l, "(declare-fun ") && strings.Contains(l, "(Sq ") {
+			// argument sorts with parameters: "(declare-fun f ((Sq Bytes) Bytes) Bytes)"
+			rest := strings.TrimPrefix(l, "(declare-fun ")
+			sp := strings.IndexByte(rest, ' ')
+			name, rest := rest[:sp], strings.TrimSpace(rest[sp:])
+			depth, end := 0, -1
+			for i, ch := range rest {
+				if ch == '(' {
+					depth++
+				} else if ch == ')' {
+					depth--
+					if depth == 0 {
+						end = i
+						break
+					}
+				}
+			}
+			if end > 0 {
+				var args []string
+				inner := rest[1:end]
+				for len(strings.TrimSpace(inner)) > 0 {
+					inner = strings.TrimSpace(inner)
+					if inner[0] == '(' {
+						j := strings.IndexByte(inner, ')')
+						args = append(args, inner[:j+1])
+						inner = inner[j+1:]
+					} else {
+						j := strings.IndexByte(inner, ' ')
+						if j < 0 {
+							j = len(inner)
+						}
+						args = append(args, inner[:j])
+						inner = inner[j:]
+					}
+				}
+				res := strings.TrimSpace(strings.TrimSuffix(strings.TrimSpace(rest[end+1:]), ")"))
+				preludeSigs[name] = specSig{args, res}
+				continue
+			}
+		}
 		if m := declFunRe.FindStringSubmatch(l); m != nil {
 			preludeSigs[m[1]] = specSig{strings.Fields(m[2]), strings.TrimSpace(m[3])}
 		} else if m := defineFunRe.FindStringSubmatch(l); m != nil {
